@@ -151,3 +151,14 @@ Definition kernel_case_ok (c : Z * opname * xval * nat * list Z * list xval * li
   let '(eng, o, fill, size, codes, vals, impl) := c in
   let k := if eng =? 0 then flox_kernel o fill codes vals else npg_kernel o fill codes vals in
   forallb2 xval_eqb (map k (zrange 0 size)) impl.
+
+(* ---- binning / ravel / offset cases (K2) ---- *)
+From Flox Require Import Binning.
+Definition bin_case_ok (c : bool * list Z * list xval * list Z) : bool :=
+  let '(rt, edges, xs, impl) := c in list_z_eqb (map (bin_code rt edges) xs) impl.
+Definition ravel_case_ok (c : list Z * list (list Z) * list Z) : bool :=
+  let '(sizes, rows, impl) := c in
+  list_z_eqb (map (fun codes => ravel_codes (combine codes sizes)) rows) impl.
+Definition offset_case_ok (c : Z * list (list Z) * list Z) : bool :=
+  let '(ng, rows, impl) := c in
+  list_z_eqb (concat (map (fun rc => map (offset_code ng (fst rc)) (snd rc)) (zip_pos rows 0))) impl.
